@@ -118,6 +118,28 @@ impl V {
 	}
 	/// TOML's stable partition: inside every table, non-table entries first, then tables
 	/// (a table entry is a map, or a non-empty array whose elements are all maps).
+	/// The ordering actually produced by the `toml` crate's pretty serializer (known finding): at the
+	/// root, non-tables first and then tables and arrays of tables in input order; inside every nested
+	/// table, non-tables, then ARRAYS OF TABLES, then tables. Only used by an explanation test.
+	pub fn toml_reordered_as_observed(&self, root: bool) -> V {
+		match self {
+			V::Arr(a) => V::Arr(a.iter().map(|x| x.toml_reordered_as_observed(false)).collect()),
+			V::Map(m) => {
+				let items: Vec<(V, V)> = m.iter().map(|(k, v)| (k.clone(), v.toml_reordered_as_observed(false))).collect();
+				let is_aot = |v: &V| matches!(v, V::Arr(a) if !a.is_empty() && a.iter().all(|x| matches!(x, V::Map(_))));
+				let is_tbl = |v: &V| matches!(v, V::Map(_));
+				let mut out: Vec<(V, V)> = items.iter().filter(|(_, v)| !is_tbl(v) && !is_aot(v)).cloned().collect();
+				if root {
+					out.extend(items.iter().filter(|(_, v)| is_tbl(v) || is_aot(v)).cloned());
+				} else {
+					out.extend(items.iter().filter(|(_, v)| is_aot(v)).cloned());
+					out.extend(items.iter().filter(|(_, v)| is_tbl(v)).cloned());
+				}
+				V::Map(out)
+			}
+			x => x.clone(),
+		}
+	}
 	pub fn toml_reordered(&self) -> V {
 		match self {
 			V::Arr(a) => V::Arr(a.iter().map(V::toml_reordered).collect()),
